@@ -168,8 +168,13 @@ class TG:
             return '%s(unsafe)' % self.name
         return trait_with_params(ctx.sp, self.name, [b])
     def variant_meta(self, ctx, variant):
+        """variant.index / variant.count / variant.kind are set"""
         return None
     def field_meta(self, ctx, field):
+        """field.index / field.count / field.variant (Variant or None) / field.named are set"""
+        return None
+    def post(self, ctx, inp):
+        """called once with the finished Input: may add #[repr], discriminants, ... (mutates inp)"""
         return None
 
 class G_PartialEq(TG):
@@ -270,12 +275,13 @@ def apply_fault(ctx, where, metas, educed):
     return metas
 
 # ---------------------------------------------------------------- the case generator
-def gen_fields(ctx, n, named):
+def gen_fields(ctx, n, named, variant=None):
     r = ctx.rng
     names = r.sample(FIELD_NAMES, n) if named else [None] * n
     fields = []
-    for nm in names:
+    for idx, nm in enumerate(names):
         f = Field(nm, gen_type(ctx))
+        f.index, f.count, f.variant, f.named = idx, n, variant, named
         metas = [GENS[t].field_meta(ctx, f) for t in ALL_TRAITS if t in ctx.traits and t in GENS]
         metas = apply_fault(ctx, 'field', metas, ctx.traits)
         f.attrs = assemble(ctx, metas)
@@ -310,18 +316,22 @@ def gen_case(seed, spseed, modelled, want_fault=False, kinds=('struct', 'enum', 
     elif ctx.kind == 'enum':
         nv = pick(rng, [0, 1, 1, 2, 2, 3, 3, 4])
         vnames = rng.sample(VARIANT_NAMES, nv)
-        for vn in vnames:
+        for vidx, vn in enumerate(vnames):
             vk = pick(rng, ['unit', 'named', 'unnamed'])
             v = Variant(vn, vk)
+            v.index, v.count = vidx, nv
             n = 0 if vk == 'unit' else pick(rng, [0, 1, 1, 2, 2, 3, 4])
             metas = [GENS[t].variant_meta(ctx, v) for t in traits]
             metas = apply_fault(ctx, 'variant', metas, ctx.traits)
             v.attrs = assemble(ctx, metas)
-            v.fields = gen_fields(ctx, n, vk == 'named')
+            v.fields = gen_fields(ctx, n, vk == 'named', variant=v)
             inp.variants.append(v)
     else:
         n = pick(rng, [1, 1, 2, 3])
         inp.fields = gen_fields(ctx, n, True)
+    for t in traits:
+        if t in GENS:
+            GENS[t].post(ctx, inp)
     inp.fault = ctx.fault
     inp.traits = traits
     return inp
